@@ -8,6 +8,7 @@ import (
 	"github.com/php-any/origami/parser"
 	"github.com/php-any/origami/runtime"
 	"github.com/php-any/origami/token"
+	"time"
 	"verif/symx"
 )
 
@@ -306,6 +307,18 @@ func H_parse_cost() {
 	symx.Observe("cost", k, shallow, deep)
 	if symx.IsSymbolic() {
 		symx.Assert(deep <= 4*shallow, "parse cost grows at most polynomially with nesting depth: "+f.open+"…")
+	} else {
+		// native replay has no instruction meter: the same comparison on wall-clock time at depths
+		// where a doubling-per-level parser is measurable (depth 14 vs 18: 16x)
+		wall := func(src string) time.Duration {
+			p := parser.NewParser()
+			runtime.NewVM(p)
+			t0 := time.Now()
+			p.ParseString(src, "t.zy")
+			return time.Since(t0)
+		}
+		t1, t2 := wall(build(14)), wall(build(18))
+		symx.Assert(t2 <= 8*t1+20*time.Millisecond, "parse cost grows at most polynomially with nesting depth: "+f.open+"…")
 	}
 	symx.Reach("parsed")
 }
